@@ -70,3 +70,209 @@ Proof.
   { apply (qround_near _ (- t)); [ rewrite inject_Z_opp; lra | lra | lra ]. }
   rewrite Hr, inject_Z_opp. lra.
 Qed.
+
+(* ================================================================== the model make_dual *)
+From Koala Require Import Proofs.SurgeryFacts Proofs.SurgeryPerm.
+Open Scope nat_scope.
+
+Definition darts_of (p : plaquette) : list (nat * bool) := combine (p_edges p) (p_dirs p).
+Definition no_plaquette : plaquette := mkPlaq [] [] [] vzero 0%Z 0%Z.
+
+(* ---- unfolding ---- *)
+Lemma make_dual_spec L D : make_dual L = DualOk D ->
+  exists ps, find_all_plaquettes L = Some ps /\
+    qpos D = map (fun p => qmod1v (centre L p)) ps /\
+    qedges D = cleaned_edges (edges_plaquettes L ps) /\
+    qcrossing D = map (dual_crossing_of (qpos D)) (qedges D).
+Proof.
+  unfold make_dual. destruct (find_all_plaquettes L) as [ps|]; [|discriminate].
+  destruct (rows_nodup _); [|discriminate].
+  intro H. injection H as <-. exists ps. repeat split; reflexivity.
+Qed.
+
+(* ---- the two-sided edges, in edge order ---- *)
+Definition both_sides (r : ep_row) : bool :=
+  match r with (Some _, Some _) => true | _ => false end.
+Definition sides_of (r : ep_row) : nat * nat :=
+  match r with (Some a, Some b) => (a, b) | _ => (0, 0) end.
+Definition two_sided (ep : list ep_row) : list nat :=
+  filter (fun e => both_sides (nth e ep (None, None))) (seq 0 (length ep)).
+
+Lemma cleaned_edges_filter ep : cleaned_edges ep = map sides_of (filter both_sides ep).
+Proof.
+  unfold cleaned_edges. induction ep as [|[[a|] [b|]] ep IH]; cbn [flat_map filter both_sides map sides_of app]; rewrite ?IH; reflexivity.
+Qed.
+
+(* dual edge list = one edge per two-sided edge e, in edge order, joining (forward plaquette of e,
+   backward plaquette of e) *)
+Lemma cleaned_edges_spec ep :
+  cleaned_edges ep = map (fun e => sides_of (nth e ep (None, None))) (two_sided ep).
+Proof.
+  rewrite cleaned_edges_filter. unfold two_sided.
+  rewrite <- (map_nth_filter_seq (None, None) both_sides ep) at 1. rewrite map_map. reflexivity.
+Qed.
+
+(* ---- the edge -> plaquette table really holds the plaquettes on the two sides ---- *)
+Definition ep_inv (qs : list plaquette) (tab : list ep_row) : Prop :=
+  forall e a,
+    (fst (nth e tab (None, None)) = Some a -> a < length qs /\ In (e, true) (darts_of (nth a qs no_plaquette))) /\
+    (snd (nth e tab (None, None)) = Some a -> a < length qs /\ In (e, false) (darts_of (nth a qs no_plaquette))).
+
+Lemma nth_set_nth_any {A} (x d : A) l n m :
+  nth m (set_nth n x l) d = if (n =? m) && (n <? length l) then x else nth m l d.
+Proof.
+  destruct (Nat.eqb_spec n m) as [->|NE]; cbn [andb].
+  - destruct (Nat.ltb_spec m (length l)) as [Hlt|Hge].
+    + apply nth_set_nth_eq. exact Hlt.
+    + rewrite !nth_overflow; [reflexivity | exact Hge | rewrite set_nth_length; exact Hge].
+  - apply nth_set_nth_neq. exact NE.
+Qed.
+
+Lemma ep_write_inv qs n p tab ed :
+  nth n qs no_plaquette = p -> n < length qs -> In ed (darts_of p) ->
+  ep_inv qs tab -> ep_inv qs (ep_write n tab ed).
+Proof.
+  intros Hp Hn Hin Hinv e a. unfold ep_write.
+  rewrite nth_set_nth_any.
+  destruct ((fst ed =? e) && (fst ed <? length tab)) eqn:C.
+  - apply andb_true_iff in C. destruct C as [C _]. apply Nat.eqb_eq in C. subst e.
+    destruct ed as [e d]. cbn [fst snd] in *. destruct d; cbn [fst snd]; split; intro H.
+    + injection H as <-. rewrite Hp. split; assumption.
+    + apply (Hinv e a). exact H.
+    + apply (Hinv e a). exact H.
+    + injection H as <-. rewrite Hp. split; assumption.
+  - apply Hinv.
+Qed.
+
+Lemma ep_fold_inner qs n p : nth n qs no_plaquette = p -> n < length qs ->
+  forall l tab, incl l (darts_of p) -> ep_inv qs tab -> ep_inv qs (fold_left (ep_write n) l tab).
+Proof.
+  intros Hp Hn. induction l as [|ed l IH]; intros tab Hincl Hinv; [exact Hinv|].
+  cbn [fold_left]. apply IH.
+  - intros x Hx. apply Hincl. right. exact Hx.
+  - apply (ep_write_inv qs n p); auto. apply Hincl. left. reflexivity.
+Qed.
+
+Lemma ep_inv_app qs p tab : ep_inv qs tab -> ep_inv (qs ++ [p]) tab.
+Proof.
+  intros H e a. destruct (H e a) as [H1 H2]. split; intro Hs.
+  - destruct (H1 Hs) as [Hlt Hin]. rewrite app_length, app_nth1 by exact Hlt. split; [simpl; lia | exact Hin].
+  - destruct (H2 Hs) as [Hlt Hin]. rewrite app_length, app_nth1 by exact Hlt. split; [simpl; lia | exact Hin].
+Qed.
+
+Lemma ep_fold_outer : forall rest done tab, ep_inv done tab ->
+  ep_inv (done ++ rest)
+    (fst (fold_left (fun (st : list ep_row * nat) (p : plaquette) =>
+            (fold_left (ep_write (snd st)) (combine (p_edges p) (p_dirs p)) (fst st), S (snd st)))
+          rest (tab, length done))).
+Proof.
+  induction rest as [|p rest IH]; intros done tab Hinv.
+  - rewrite app_nil_r. exact Hinv.
+  - cbn [fold_left fst snd].
+    replace (done ++ p :: rest) with ((done ++ [p]) ++ rest) by (rewrite <- app_assoc; reflexivity).
+    replace (S (length done)) with (length (done ++ [p])) by (rewrite app_length; simpl; lia).
+    apply IH.
+    apply (ep_fold_inner (done ++ [p]) (length done) p).
+    + rewrite app_nth2, Nat.sub_diag by lia. reflexivity.
+    + rewrite app_length. simpl. lia.
+    + apply incl_refl.
+    + apply ep_inv_app. exact Hinv.
+Qed.
+
+Lemma edges_plaquettes_inv L ps : ep_inv ps (edges_plaquettes L ps).
+Proof.
+  unfold edges_plaquettes.
+  apply (ep_fold_outer ps [] (repeat (None, None) (nE L))).
+  intros e a.
+  match goal with |- context [nth e ?t ?d] =>
+    assert (H : nth e t d = (None, None))
+  end.
+  { destruct (Nat.lt_ge_cases e (nE L)); [apply nth_repeat | apply nth_overflow; rewrite repeat_length; lia]. }
+  unfold ep_row. rewrite H. split; discriminate.
+Qed.
+
+(* dual_vertices_edges: one dual vertex per plaquette at its centre mod 1 (inside [0,1)); the dual edge list
+   is one edge per edge of L having a plaquette on both sides, in edge order; dual edge i, coming from the
+   i-th two-sided edge e, joins (a, b) where the dart (e, +1) lies on plaquette a and the dart (e, -1) on
+   plaquette b; crossing = round-half-even of pos[a] - pos[b] *)
+Lemma dual_vertices_edges L D : make_dual L = DualOk D ->
+  exists ps, find_all_plaquettes L = Some ps /\
+    length (qpos D) = length ps /\
+    (forall n, n < length ps ->
+       nth n (qpos D) qvzero = qmod1v (centre L (nth n ps no_plaquette)) /\
+       (0 <= fst (nth n (qpos D) qvzero) /\ fst (nth n (qpos D) qvzero) < 1)%Q /\
+       (0 <= snd (nth n (qpos D) qvzero) /\ snd (nth n (qpos D) qvzero) < 1)%Q) /\
+    let ep := edges_plaquettes L ps in
+    qedges D = map (fun e => sides_of (nth e ep (None, None))) (two_sided ep) /\
+    length (qcrossing D) = length (qedges D) /\
+    (forall i, i < length (qedges D) ->
+       let e := nth i (two_sided ep) 0 in
+       let ab := nth i (qedges D) (0, 0) in
+       fst ab < length ps /\ snd ab < length ps /\
+       In (e, true) (darts_of (nth (fst ab) ps no_plaquette)) /\
+       In (e, false) (darts_of (nth (snd ab) ps no_plaquette)) /\
+       nth i (qcrossing D) vzero = dual_crossing_of (qpos D) ab).
+Proof.
+  intro H. destruct (make_dual_spec L D H) as (ps & Hps & Hpos & Hed & Hcr).
+  exists ps. split; [exact Hps|]. split; [rewrite Hpos; apply map_length|]. split.
+  - intros n Hn.
+    assert (E : nth n (qpos D) qvzero = qmod1v (centre L (nth n ps no_plaquette))).
+    { rewrite Hpos. rewrite (nth_indep _ _ (qmod1v (centre L no_plaquette))) by (rewrite map_length; exact Hn).
+      apply (map_nth (fun p => qmod1v (centre L p))). }
+    split; [exact E|]. rewrite E. unfold qmod1v. cbn [fst snd]. split; apply qmod1_range.
+  - cbv zeta. rewrite Hed, cleaned_edges_spec. split; [reflexivity|].
+    split; [rewrite Hcr, map_length, Hed, cleaned_edges_spec; reflexivity|].
+    intros i Hi. rewrite map_length in Hi.
+    set (ep := edges_plaquettes L ps) in *.
+    set (f := fun e => sides_of (nth e ep (None, None))).
+    assert (Enth : nth i (map f (two_sided ep)) (0, 0) = f (nth i (two_sided ep) 0)).
+    { rewrite (nth_indep _ _ (f 0)) by (rewrite map_length; exact Hi). apply map_nth. }
+    rewrite Enth.
+    set (e := nth i (two_sided ep) 0) in *.
+    assert (Hb : both_sides (nth e ep (None, None)) = true).
+    { assert (Hin : In e (two_sided ep)) by (apply nth_In; exact Hi).
+      unfold two_sided in Hin. apply filter_In in Hin. exact (proj2 Hin). }
+    pose proof (edges_plaquettes_inv L ps e) as Hinv. fold ep in Hinv.
+    unfold f. destruct (nth e ep (None, None)) as [[a|] [b|]] eqn:Er; try discriminate Hb.
+    cbn [sides_of fst snd]. cbn [fst snd] in Hinv.
+    destruct (proj1 (Hinv a) eq_refl) as [Ha Hda]. destruct (proj2 (Hinv b) eq_refl) as [Hb' Hdb].
+    split; [exact Ha|]. split; [exact Hb'|]. split; [exact Hda|]. split; [exact Hdb|].
+    rewrite Hcr, Hed, cleaned_edges_spec. fold ep.
+    rewrite (nth_indep _ _ (dual_crossing_of (qpos D) (0, 0))) by (rewrite !map_length; exact Hi).
+    rewrite (map_nth (dual_crossing_of (qpos D))). fold f. rewrite Enth. unfold f. fold e. rewrite Er. reflexivity.
+Qed.
+
+(* dual_vector_true: if t is congruent to (centre of b) - (centre of a) modulo the integer lattice (the true
+   centre-to-centre displacement, unwrapped through the shared edge, is such a t) and |t_x|, |t_y| < 1/2,
+   then the dual edge vector pos[b] - pos[a] + crossing equals t *)
+Lemma dual_vector_true L D ps i (t : qvec) (m : Z * Z) :
+  make_dual L = DualOk D -> find_all_plaquettes L = Some ps -> i < length (qedges D) ->
+  let ab := nth i (qedges D) (0, 0) in
+  let ca := centre L (nth (fst ab) ps no_plaquette) in
+  let cb := centre L (nth (snd ab) ps no_plaquette) in
+  (fst cb - fst ca == fst t + inject_Z (fst m))%Q -> (snd cb - snd ca == snd t + inject_Z (snd m))%Q ->
+  (-(1 # 2) < fst t)%Q -> (fst t < 1 # 2)%Q -> (-(1 # 2) < snd t)%Q -> (snd t < 1 # 2)%Q ->
+  (fst (qevec D i) == fst t)%Q /\ (snd (qevec D i) == snd t)%Q.
+Proof.
+  intros HD Hps Hi. cbv zeta. intros Hx Hy Hx1 Hx2 Hy1 Hy2.
+  destruct (dual_vertices_edges L D HD) as (ps' & Hps' & _ & Hpos & Hrest).
+  rewrite Hps in Hps'. injection Hps' as <-.
+  cbv zeta in Hrest. destruct Hrest as (_ & _ & Hedge).
+  destruct (Hedge i Hi) as (Ha & Hb & _ & _ & Hc). cbv zeta in Hc.
+  unfold qevec. rewrite Hc.
+  destruct (Hpos _ Ha) as (Epa & _). destruct (Hpos _ Hb) as (Epb & _).
+  set (ab := nth i (qedges D) (0, 0)) in *.
+  unfold dual_crossing_of, qvsub. cbn [fst snd].
+  set (pa := nth (fst ab) (qpos D) qvzero) in *. set (pb := nth (snd ab) (qpos D) qvzero) in *.
+  set (ca := centre L (nth (fst ab) ps no_plaquette)) in *.
+  set (cb := centre L (nth (snd ab) ps no_plaquette)) in *.
+  assert (Fa1 : (fst pa == fst ca - inject_Z (Qfloor (fst ca)))%Q) by (rewrite Epa; reflexivity).
+  assert (Fa2 : (snd pa == snd ca - inject_Z (Qfloor (snd ca)))%Q) by (rewrite Epa; reflexivity).
+  assert (Fb1 : (fst pb == fst cb - inject_Z (Qfloor (fst cb)))%Q) by (rewrite Epb; reflexivity).
+  assert (Fb2 : (snd pb == snd cb - inject_Z (Qfloor (snd cb)))%Q) by (rewrite Epb; reflexivity).
+  split.
+  - apply (round_recovers_displacement _ _ _ (fst m - Qfloor (fst cb) + Qfloor (fst ca))%Z); [|assumption|assumption].
+    rewrite Fa1, Fb1. unfold Z.sub. rewrite !inject_Z_plus, inject_Z_opp. lra.
+  - apply (round_recovers_displacement _ _ _ (snd m - Qfloor (snd cb) + Qfloor (snd ca))%Z); [|assumption|assumption].
+    rewrite Fa2, Fb2. unfold Z.sub. rewrite !inject_Z_plus, inject_Z_opp. lra.
+Qed.
